@@ -128,6 +128,8 @@ pub struct Report {
 }
 
 pub const MAX_VIOLATIONS_KEPT: usize = 6;
+pub const QUICK_MULT: usize = 4;
+pub const THOROUGH_MULT: usize = 3;
 pub const SAMPLES_PER_KIND: usize = 2;
 
 impl Ctx {
@@ -178,7 +180,8 @@ impl Ctx {
     /// Number of random cases for this shard: `q` (quick) or `t` (thorough) in total over all shards,
     /// scaled by the volume percentage.
     pub fn count(&self, q: usize, t: usize) -> usize {
-        let total = if self.quick() { q } else { t };
+        // global volume multipliers (the per-property numbers were calibrated at 1x: ~1-2 s per property)
+        let total = if self.quick() { q * QUICK_MULT } else { t * THOROUGH_MULT };
         let total = total * self.volume_pct / 100;
         (total + self.nshards - 1) / self.nshards
     }
